@@ -21,6 +21,13 @@ MUTS = {
  'takewhile-loop': ('operator_filter.go', 'destination.CompleteWithContext(currentCtx)\n' + T*8 + 'skipping = true',
                     'for k := 0; k < 1; k++ {\n' + T*9 + 'destination.CompleteWithContext(currentCtx)\n' + T*8 + '}\n' + T*8 + 'skipping = true', 'TakeWhileIWithContext', False),
  'scan-index-late': ('operator_transformations.go', 'ctx, accumulator = reduce(ctx, accumulator, value, i)\n' + T*6 + 'i++', 'i++\n' + T*6 + 'ctx, accumulator = reduce(ctx, accumulator, value, i)', 'ScanIWithContext', True),
+ # operators tied by refinement (Machine.Sim)
+ 'skiplast-lt-le': ('operator_filter.go', 'if size < count {\n' + T*7 + 'buffer[index] = lo.T2(ctx, value)', 'if size <= count {\n' + T*7 + 'buffer[index] = lo.T2(ctx, value)', 'SkipLast', True),
+ 'takelast-ge-gt': ('operator_filter.go', 'if index >= count {\n' + T*7 + 'buffer = buffer[1:]', 'if index > count {\n' + T*7 + 'buffer = buffer[1:]', 'TakeLast', True),
+ 'pairwise-gt-ge': ('operator_combining.go', 'if count > 0 {\n' + T*7 + 'destination.NextWithContext(ctx, []T{last, value})', 'if count >= 0 {\n' + T*7 + 'destination.NextWithContext(ctx, []T{last, value})', 'Pairwise', True),
+ 'throwifempty-eq-ne': ('operator_error_handling.go', 'if atomic.LoadUint64(&count) == 0 {', 'if atomic.LoadUint64(&count) != 0 {', 'ThrowIfEmpty', True),
+ 'tomap-index-late': ('operator_sink.go', 'k, v := mapper(ctx, value, i)\n' + T*6 + 'i++', 'i++\n' + T*6 + 'k, v := mapper(ctx, value, i)', 'ToMapIWithContext', False),
+ 'cast-swallow': ('operator_transformations.go', 'destination.ErrorWithContext(ctx, newCastError[T, U]())', 'destination.CompleteWithContext(ctx)', 'Cast', True),
  'rename-only': ('operator_filter.go', None, None, None, False),
 }
 
